@@ -29,13 +29,45 @@ type c10kind struct {
 	keys   []goatlang.Value
 	lits   []string // script literals
 	gotype string
+	anyVal bool // element type any: the model value 1 is stored as nil (a stored nil is still a present key)
+}
+
+func (kd c10kind) vt() goatlang.Type {
+	if kd.anyVal {
+		return goatlang.TypeNil
+	}
+	return goatlang.TypeInt32
+}
+
+func (kd c10kind) enc(v int) goatlang.Value {
+	if kd.anyVal && v == 1 {
+		return goatlang.Nil()
+	}
+	return goatlang.Int(v)
+}
+
+func (kd c10kind) dec(v goatlang.Value) int {
+	if kd.anyVal && v.Type() == goatlang.TypeNil {
+		return 1
+	}
+	return int(v.Float64())
+}
+
+// zero: the model value a missing key reads as
+func (kd c10kind) zero() int {
+	if kd.anyVal {
+		return 1
+	}
+	return 0
 }
 
 var c10kinds = []c10kind{
-	{"string", goatlang.TypeString, []goatlang.Value{goatlang.String("a"), goatlang.String("b"), goatlang.String("c")}, []string{`"a"`, `"b"`, `"c"`}, "string"},
-	{"int", goatlang.TypeInt32, []goatlang.Value{goatlang.Int(1), goatlang.Int(2), goatlang.Int(3)}, []string{"1", "2", "3"}, "int"},
-	{"float64", goatlang.TypeFloat64, []goatlang.Value{goatlang.Float64(0.5), goatlang.Float64(1), goatlang.Float64(1.5)}, []string{"0.5", "1.0", "1.5"}, "float64"},
-	{"bool", goatlang.TypeBool, []goatlang.Value{goatlang.Bool(true), goatlang.Bool(false)}, []string{"true", "false"}, "bool"},
+	{"string", goatlang.TypeString, []goatlang.Value{goatlang.String("a"), goatlang.String("b"), goatlang.String("c")}, []string{`"a"`, `"b"`, `"c"`}, "string", false},
+	{"int", goatlang.TypeInt32, []goatlang.Value{goatlang.Int(1), goatlang.Int(2), goatlang.Int(3)}, []string{"1", "2", "3"}, "int", false},
+	{"float64", goatlang.TypeFloat64, []goatlang.Value{goatlang.Float64(0.5), goatlang.Float64(1), goatlang.Float64(1.5)}, []string{"0.5", "1.0", "1.5"}, "float64", false},
+	{"bool", goatlang.TypeBool, []goatlang.Value{goatlang.Bool(true), goatlang.Bool(false)}, []string{"true", "false"}, "bool", false},
+	{"string->any", goatlang.TypeString, []goatlang.Value{goatlang.String("a"), goatlang.String("b"), goatlang.String("c")}, []string{`"a"`, `"b"`, `"c"`}, "string", true},
+	{"int->any", goatlang.TypeInt32, []goatlang.Value{goatlang.Int(1), goatlang.Int(2), goatlang.Int(3)}, []string{"1", "2", "3"}, "int", true},
 }
 
 // an operation of the history alphabet
@@ -97,16 +129,16 @@ func c10build(h c10hist) (goatlang.Value, *c10ref) {
 	var in []goatlang.Value
 	ref := newC10ref()
 	for _, k := range h.Init {
-		in = append(in, kd.keys[k], goatlang.Int(7))
+		in = append(in, kd.keys[k], kd.enc(7))
 		ref.set(k, 7)
 	}
-	m := goatlang.NewMap(kd.kt, goatlang.TypeInt32, in)
+	m := goatlang.NewMap(kd.kt, kd.vt(), in)
 	for _, o := range h.Ops {
 		if o.Del {
 			m.Delete(kd.keys[o.K])
 			ref.del(o.K)
 		} else {
-			m.Set(kd.keys[o.K], goatlang.Int(o.V))
+			m.Set(kd.keys[o.K], kd.enc(o.V))
 			ref.set(o.K, o.V)
 		}
 	}
@@ -132,11 +164,14 @@ func c10observe(kd c10kind, m goatlang.Value, ref *c10ref) (problem string, obs 
 	for i, k := range kd.keys {
 		v, ok := m.Get(k)
 		want, wok := ref.val[i]
-		o = append(o, fmt.Sprintf("get%d=%v,%v", i, v.Float64(), ok))
-		if ok != wok || int(v.Float64()) != want {
-			problem = fmt.Sprintf("Get(k%d) = (%v,%v), Go map gives (%v,%v)", i, v.Float64(), ok, want, wok)
+		if !wok {
+			want = kd.zero()
 		}
-		if !wok && v.Type() != goatlang.TypeInt32 {
+		o = append(o, fmt.Sprintf("get%d=%v,%v", i, kd.dec(v), ok))
+		if ok != wok || kd.dec(v) != want {
+			problem = fmt.Sprintf("Get(k%d) = (%v,%v), Go map gives (%v,%v)", i, kd.dec(v), ok, want, wok)
+		}
+		if !wok && v.Type() != kd.vt() {
 			problem = fmt.Sprintf("Get(k%d) of a missing key is not the typed zero value", i)
 		}
 	}
@@ -154,11 +189,11 @@ func c10observe(kd c10kind, m goatlang.Value, ref *c10ref) (problem string, obs 
 		}
 		i := c10keyIndex(kd, k)
 		seen[i]++
-		rs = append(rs, fmt.Sprintf("%d:%v", i, v.Float64()))
+		rs = append(rs, fmt.Sprintf("%d:%v", i, kd.dec(v)))
 		if want, live := ref.val[i]; !live {
 			problem = fmt.Sprintf("range yields k%d which is not in the map", i)
-		} else if int(v.Float64()) != want {
-			problem = fmt.Sprintf("range yields k%d with value %v, current value is %d", i, v.Float64(), want)
+		} else if kd.dec(v) != want {
+			problem = fmt.Sprintf("range yields k%d with value %v, current value is %d", i, kd.dec(v), want)
 		}
 	}
 	for i := range ref.val {
@@ -213,7 +248,7 @@ func c10runIter(it c10iter, extend bool) (problem string, ended bool, trace stri
 				delete(whole, mu.K)
 				tr = append(tr, fmt.Sprintf("delete(k%d)", mu.K))
 			} else {
-				m.Set(kd.keys[mu.K], goatlang.Int(9))
+				m.Set(kd.keys[mu.K], kd.enc(9))
 				ref.set(mu.K, 9)
 				if g, ok := whole[mu.K]; ok && g != ref.gen[mu.K] {
 					delete(whole, mu.K)
@@ -229,15 +264,15 @@ func c10runIter(it c10iter, extend bool) (problem string, ended bool, trace stri
 			return
 		}
 		i := c10keyIndex(kd, k)
-		tr = append(tr, fmt.Sprintf("next()=k%d:%v", i, v.Float64()))
+		tr = append(tr, fmt.Sprintf("next()=k%d:%v", i, kd.dec(v)))
 		g, live := ref.gen[i]
 		switch {
 		case !live:
 			problem = fmt.Sprintf("range produced k%d while it is not in the map", i)
 		case visited[g]:
 			problem = fmt.Sprintf("range produced the same entry k%d twice", i)
-		case int(v.Float64()) != ref.val[i]:
-			problem = fmt.Sprintf("range produced k%d with value %v, current value %d", i, v.Float64(), ref.val[i])
+		case kd.dec(v) != ref.val[i]:
+			problem = fmt.Sprintf("range produced k%d with value %v, current value %d", i, kd.dec(v), ref.val[i])
 		}
 		visited[g] = true
 	}
@@ -332,6 +367,11 @@ func c10inits(n int) [][]int {
 		}
 	}
 	rec(nil, 0)
+	// initial contents that name a key twice (valid for non-constant keys in a Go map literal: the later entry wins)
+	out = append(out, []int{0, 0}, []int{0, 1, 0})
+	if n > 2 {
+		out = append(out, []int{2, 1, 2, 0})
+	}
 	return out
 }
 
@@ -485,7 +525,10 @@ func c10run(r *report.Run) {
 				r.Sample(map[string]any{"history": h.String(), "interleaving": tr})
 			}
 		})
-		// (d) script renderings
+		// (d) script renderings (int-valued kinds; the any-valued kinds print nil differently from Go and are covered by (a)-(c))
+		if kd.anyVal {
+			continue
+		}
 		var shist []c10hist
 		var srec func(h c10hist)
 		srec = func(h c10hist) {
@@ -561,6 +604,25 @@ func c10zeroCases() [][2]string {
 				out = append(out, [2]string{src, want})
 			}
 		}
+	}
+	// the same reads on maps held in locals and parameters of a function (FASTGET / FASTGETINT windows)
+	for _, kd := range c10kinds[:4] {
+		for _, e := range els {
+			src := "import \"fmt\"\ntype T struct { n int }\n" +
+				fmt.Sprintf("func get(m map[%s]%s) bool {\n\tv := m[%s]\n\tw, ok := m[%s]\n\tn := 0\n\tfor range m {\n\t\tn++\n\t}\n\tdelete(m, %s)\n\t_ = w\n\treturn !ok && n == 0 && len(m) == 0 && %s\n}\n", kd.gotype, e.typ, kd.lits[0], kd.lits[0], kd.lits[0], strings.Split(e.zero, ",")[0]) +
+				fmt.Sprintf("func local() bool {\n\tvar m map[%s]%s\n\tv := m[%s]\n\treturn m == nil && %s && get(m)\n}\n", kd.gotype, e.typ, kd.lits[0], strings.Split(e.zero, ",")[0]) +
+				fmt.Sprintf("fmt.Println(get(nil), local(), get(map[%s]%s{}))\n", kd.gotype, e.typ)
+			out = append(out, [2]string{src, "true true true\n"})
+		}
+	}
+	// constant keys beyond int32 and float keys written as integer literals, on maps held in locals (fused constant-index windows)
+	out = append(out, [2]string{"import \"fmt\"\nfunc f() {\n\tm := map[uint32]int{}\n\tm[4000000000] = 1\n\tvar k uint32 = 4000000000\n\tv, ok := m[k]\n\tm[k] += 1\n\tfmt.Println(len(m), v, ok, m[4000000000], m[k])\n\tfm := map[float64]int{}\n\tfm[3] = 1\n\tkf := 3.0\n\tfm[kf]++\n\tfmt.Println(len(fm), fm[3], fm[kf])\n\tim := map[int]int{}\n\tim[-1] = 5\n\tki := -1\n\tim[ki]++\n\tfmt.Println(len(im), im[-1], im[ki])\n}\nf()\n", "1 1 true 2 2\n1 2 2\n1 6 6\n"})
+	out = append(out, [2]string{"import \"fmt\"\nfunc f() {\n\ts := \"a\"\n\tm := map[string]int{s: 1, \"b\": 2, s: 3}\n\tn, t := 0, 0\n\tfor _, v := range m {\n\t\tn++\n\t\tt += v\n\t}\n\tfmt.Println(len(m), n, t, m[s])\n}\nf()\n", "2 2 5 3\n"})
+	// a stored nil is a present key: delete removes it
+	for _, kt := range []string{"string", "int"} {
+		k := map[string]string{"string": `"a"`, "int": "1"}[kt]
+		src := "import \"fmt\"\n" + fmt.Sprintf("m := map[%s]any{}\nm[%s] = nil\n_, ok := m[%s]\nfmt.Println(len(m), ok)\ndelete(m, %s)\n_, ok2 := m[%s]\nn := 0\nfor range m {\n\tn++\n}\nfmt.Println(len(m), ok2, n)\n", kt, k, k, k, k)
+		out = append(out, [2]string{src, "1 true\n0 false 0\n"})
 	}
 	return out
 }
